@@ -21,10 +21,20 @@ func c01Monitor(st *engine.Step) {
 		return
 	}
 	u, u2 := o.UIDBefore(), o.UIDAfter()
+	kind := o.Req.Tag.Kind
+	for _, pk := range []string{"totp_pending", "sms_pending"} {
+		if x := o.SessAfter[pk]; x != "" && x != o.SessBefore[pk] {
+			// "the second-factor step of a login U's credential already started in this session":
+			// the login that is parked here must itself have been started by a valid credential of U
+			if j := justification(st.S, st.Pre, o, x); j == "" {
+				st.Report(engine.Violation{Rule: "C01/login-parked-without-credential", Attrs: "kind=" + kind + ",secret=" + o.Req.Tag.Note,
+					Detail: fmt.Sprintf("browser %s now holds a pending second-factor login for %q, started by a %s request that proved no currently valid credential of that account (secret %s)", o.Req.Browser, x, kind, flows.Label(o.Req.Tag.Secret))})
+			}
+		}
+	}
 	if u2 == u {
 		return
 	}
-	kind := o.Req.Tag.Kind
 	if u2 == "" {
 		if kind == "logout" || st.S.Cfg.Has("expire") {
 			return
